@@ -3,7 +3,8 @@ Model: Model/Mframe.v; lemmas: Proofs/MframeP.v; theorems: Props/C11.v.
 Tie: Gen/MframeFw.v (rows of the real sched_set_for_task[] tables, enum mframe_task, SCHEDULE_AHEAD/LATENCY, mframe_task2chan_nr)
 and Gen/MframeTrxcon.v (all layouts of the real layouts[], enum l1sched_lchan_type, l1sched_lchan_desc[] chan_nr/link_id/handlers,
 the results of the real l1sched_mframe_layout(config, tn)) - both produced by C dumpers that #include the real .c files -
-plus correspondence of the extracted model with the real mframe_schedule() (every task x every fn of the 51*26*8 cycle),
+plus correspondence of the extracted model with the real mframe_schedule() (every task x every fn of the 51*26*8 cycle; histories of
+mframe_enable/disable/set/reset requests interleaved with ticks, observing tasks, tasks_tgt, safe_fn and the tdma_schedule_set calls),
 the real layouts[i].frames[fn % period], the real l1sched_mframe_layout(), the real l1sched_configure_ts(), and - the four places
 where sched_trx.c performs the frame lookup - the real l1sched_handle_rx_burst() incl. subst_frame_loss(), l1sched_pull_burst() and
 l1sched_handle_rx_probe() driven through charness/c11_trxcon_cfg.c with recording handler stubs (burst sequences with losses,
@@ -958,6 +959,309 @@ def run_consumers(ctx, bins, tx, thorough):
                 ctx.sample(dict(op=what, case=dict(show_case(cases[k]), fns=cases[k]["fns"][:6]), observed=res[k][:24]), limit=10)
 
 
+# ------------------------------------------------------------------ firmware scheduler state: histories of requests and ticks
+
+OP_EN, OP_DIS, OP_SET, OP_RESET, OP_TICK, OP_SILENT, OP_POKE_T, OP_POKE_S = 1, 2, 3, 4, 5, 6, 7, 8
+OP_NAMES = {1: "mframe_enable", 2: "mframe_disable", 3: "mframe_set", 4: "mframe_reset", 5: "tick", 6: "silent-ticks", 7: "poke-tasks-tgt", 8: "poke-safe_fn"}
+
+
+def hist_line(c):
+    if "raw" in c:
+        return c["raw"]
+    return " ".join(str(x) for x in [len(c["ops"])] + [v for o in c["ops"] for v in o])
+
+
+def show_hist(c, upto=None):
+    if "raw" in c:
+        return dict(kind=c["kind"], line=c["raw"])
+    ops = c["ops"] if upto is None else c["ops"][:upto + 1]
+    txt = []
+    for (k, a, b) in ops[-40:]:
+        txt.append("%s(%s)" % (OP_NAMES[k], a if k not in (OP_SILENT, OP_POKE_T) else "%d,%d" % (a, b)) if k != OP_RESET else "mframe_reset()")
+    return dict(kind=c["kind"], n_ops=len(ops), last_ops=txt, line=hist_line(dict(ops=ops)))
+
+
+def parse_hist(c, r):
+    """observations aligned with the ops: tick -> (tasks, tgt, safe, calls), silent -> (tasks, tgt, safe, total), else None"""
+    out = []
+    i = 0
+    try:
+        for (k, a, b) in c["ops"]:
+            if k == OP_TICK:
+                t, g, s, n = r[i:i + 4]
+                i += 4
+                calls = [tuple(r[i + 3 * j:i + 3 * j + 3]) for j in range(n)]
+                if len(calls) != n or (calls and len(calls[-1]) != 3):
+                    return None
+                i += 3 * n
+                out.append((t, g, s, calls))
+            elif k == OP_SILENT:
+                t, g, s, n = r[i:i + 4]
+                i += 4
+                out.append((t, g, s, n))
+            else:
+                out.append(None)
+    except ValueError:
+        return None
+    return out if i == len(r) else None
+
+
+class FwSpec:
+    """what the property expects of a task at a current frame, from the trxcon layouts (as oracle_rows does) - not from the firmware tables"""
+
+    def __init__(self, fw, tx):
+        self.by_task = {}
+        E, T, P = tx["enum"], fw["tasks"], tx["pchan"]
+        for (task, cfg, tnrule, mode, lchan, sacch) in spec_rows():
+            t = T[task]
+            if t in self.by_task:
+                continue
+            tn = next(x for x in range(8) if tn_ok(tnrule, x))
+            li = real_lookup(tx, P[cfg], tn)
+            if li < 0:
+                continue
+            L = tx["layouts"][li]
+            if not (0 < L["period"] <= len(L["frames"])):
+                continue
+            oth = other_subchannel(lchan)
+            self.by_task[t] = (mode, L["period"], L["frames"], E[lchan], E[sacch] if sacch else None, E[oth] if oth else None, task)
+        self.cache = {}
+
+    def expected(self, t, cur):
+        key = (t, cur % CYCLE)
+        if key in self.cache:
+            return self.cache[key]
+        mode, per, fr, lch, sac, oth, _ = self.by_task[t]
+        row = fr[((cur + 2) % HYPER) % per]
+        exp = set()
+        if mode == "tch":
+            if row[0] == lch:
+                exp.add((3, False))
+            if sac is not None and row[0] == sac:
+                exp.add((4, True))
+            if oth is not None and row[0] == oth:
+                exp.add((5, False))
+        else:
+            if row[0] == lch and row[1] == 0:
+                exp.add((0, False))
+            if sac is not None and row[0] == sac and row[1] == 0:
+                exp.add((0, True))
+            if mode == "block":
+                if row[2] == lch and row[3] == 0:
+                    exp.add((1, False))
+                if sac is not None and row[2] == sac and row[3] == 0:
+                    exp.add((1, True))
+        self.cache[key] = exp
+        return exp
+
+
+def oracle_hist(ctx, fw, spec, c, obs, tname):
+    """the property on one history of the real scheduler: requests are only changed by requests, a disabled task starts nothing from the
+    next tick on, a requested task is active at the latest at the 4th tick after the last started set (at once after a reset) and stays
+    active, and an active task starts its blocks exactly in the frames the trxcon layout gives its channel. Returns ticks judged."""
+    SACCH = fw["const"]["MF_F_SACCH"]
+    quiet_need = max(fw["frames"].values()) - 2 - 1      # quiet ticks after a start before the next one must be safe (6 - 2 - 1 = 3)
+    E = 0                # requested tasks by the property's own bookkeeping
+    prev_tasks = 0
+    last = None          # frame of the previous tick
+    since = None         # consecutive quiet ticks since the last tick that started a set; None = nothing started since the reset
+    known = True         # False behind a state poke: only the correspondence speaks
+    live = True          # False behind a jump of the frame number: no liveness promise until the next reset
+    n = 0
+
+    def fail(what, key, i, **kw):
+        _capped_fail(ctx, what, dict(show_hist(c, i), **kw), key)
+    for i, ((k, a, b), o) in enumerate(zip(c["ops"], obs)):
+        if k == OP_EN:
+            E |= 1 << a
+        elif k == OP_DIS:
+            E &= ~(1 << a)
+        elif k == OP_SET:
+            E = a
+        elif k == OP_RESET:
+            E, prev_tasks, last, since, known, live = 0, 0, None, None, True, True
+        elif k in (OP_POKE_T, OP_POKE_S):
+            known = False
+        elif k == OP_SILENT:
+            tasks, tgt, safe, total = o
+            if known and tgt != E:
+                fail("tasks_tgt is %#x after %d ticks, the requests made are %#x: mframe_schedule() changed the target bitmap" % (tgt, b, E),
+                     "c11-fw-target-changed-by-tick", i, tasks=tasks, tasks_tgt=tgt, safe_fn=safe, requested=E)
+                return n
+            prev_tasks = tasks
+            if b > 0:
+                if last is not None and a != (last + 1) % HYPER:
+                    live = False
+                last = (a + b - 1) % HYPER
+            since = 0 if (total > 0 or since is not None) else None
+        elif k == OP_TICK:
+            tasks, tgt, safe, calls = o
+            cur = a
+            n += 1
+            if not known:
+                continue
+            at = dict(tick_fn=cur, tasks=tasks, tasks_tgt=tgt, safe_fn=safe, requested=E, calls=[list(x) for x in calls])
+            if tgt != E:
+                lost = E & ~tgt
+                fail("tasks_tgt is %#x after the tick of frame %d, the requests made are %#x%s: mframe_schedule() changed the target bitmap"
+                     % (tgt, cur, E, " (request for %s erased)" % ", ".join(tname.get(t, str(t)) for t in range(32) if (lost >> t) & 1) if lost else ""),
+                     "c11-fw-target-changed-by-tick", i, **at)
+                return n
+            if last is not None and not (cur == (last + 1) % HYPER and cur < HYPER):
+                live = False     # a jump of the frame number without mframe_reset(): no promise until the next reset (the firmware resets on resync)
+            started = {}
+            for (off, kind, p3) in calls:
+                t = p3 & 0xff
+                started.setdefault(t, set()).add((kind, bool((p3 >> 8) & SACCH)))
+                if off != 1:
+                    fail("tdma_schedule_set called with frame_offset %d" % off, "c11-call-args:task%d" % t, i, **at)
+                    return n
+            for t in started:
+                if not (E >> t) & 1:
+                    fail("%s is not requested (disabled) but the tick of frame %d starts a set for it" % (tname.get(t, t), cur),
+                         "c11-fw-disabled-task-started", i, task=tname.get(t, t), **at)
+                    return n
+            if tasks & ~E:
+                fail("tasks %#x contains tasks that are not requested (%#x)" % (tasks, E), "c11-fw-disabled-task-started", i, **at)
+                return n
+            dropped = prev_tasks & E & ~tasks
+            if dropped:
+                fail("an active and still requested task is dropped at the tick of frame %d" % cur, "c11-fw-active-task-dropped", i, **at)
+                return n
+            must = live and (since is None or since >= quiet_need)
+            if must and (E & ~tasks):
+                t = next(x for x in range(32) if ((E & ~tasks) >> x) & 1)
+                key = {"wrap-witness": "c11-fw-enable-deferred-after-hyperframe-wrap",
+                       "idle-witness": "c11-fw-enable-deferred-after-long-idle"}.get(c["kind"], "c11-fw-enable-deferred")
+                fail("%s is requested and %s, but it is still not active at the tick of frame %d (safe_fn %d): it starts no block although the "
+                     "layout gives its channel frames" % (tname.get(t, t), "nothing was started since the reset" if since is None else
+                                                          "no set was started in the last %d frames" % since, cur, safe), key, i, task=tname.get(t, t), **at)
+                return n
+            for t in range(32):
+                if (tasks >> t) & 1 and t in spec.by_task:
+                    exp = spec.expected(t, cur)
+                    got = started.get(t, set())
+                    if exp != got:
+                        fail("%s is active; at the tick of frame %d (on air in frame %d) it starts %s, the trxcon layout says %s"
+                             % (tname.get(t, t), cur, (cur + 2) % HYPER, sorted((K_NAMES.get(x[0], x[0]), x[1]) for x in got) or "nothing",
+                                sorted((K_NAMES.get(x[0], x[0]), x[1]) for x in exp) or "nothing"),
+                             "c11-fw-sched-block-start:%s" % tname.get(t, t), i, task=tname.get(t, t), **at)
+                        return n
+            ctx.nontrivial(("hist", tasks != tgt, bool(calls), since is None, min(since or 0, 4), bool(prev_tasks ^ tasks)))
+            since = 0 if calls else (since + 1 if since is not None else None)
+            prev_tasks = tasks
+            last = cur
+    return n
+
+
+def hist_cases(fw, rng, thorough):
+    T = fw["tasks"]
+    valid = [t for t in range(31) if fw["sets"].get(t) is not None]
+    vmask = sum(1 << t for t in valid)
+    cases = []
+
+    def ticks(start, n):
+        return [(OP_TICK, (start + k) % HYPER, 0) for k in range(n)]
+    bases = [0, 51 * 26 * 40, HYPER - 51]
+    BCCH, CCCH = T["MF_TASK_BCCH_NORM"], T["MF_TASK_CCCH"]
+    # a request arriving at every phase of the 51-multiframe while another task is running (and so lands on safe and on unsafe ticks)
+    for B in valid:
+        A = CCCH if B == BCCH else BCCH
+        for p in range(51):
+            base = bases[(B + p) % 3]
+            ops = [(OP_EN, A, 0)] + ticks(base, p) + [(OP_EN, B, 0)] + ticks(base + p, 115)
+            cases.append(dict(kind="enable-at-phase", ops=ops))
+        for p in range(0, 51, 3 if not thorough else 1):
+            base = bases[(B + p + 1) % 3]
+            ops = [(OP_EN, A, 0), (OP_EN, B, 0)] + ticks(base, 10 + p) + [(OP_DIS, B, 0)] + ticks(base + 10 + p, 60) + [(OP_EN, B, 0)] + ticks(base + 70 + p, 20)
+            cases.append(dict(kind="disable-at-phase", ops=ops))
+    # several tasks of one combination switched on together / one after the other, mframe_set replacing the set
+    groups = [[n for n in T if n.startswith(pfx)] for pfx in ("MF_TASK_SDCCH4", "MF_TASK_SDCCH8", "MF_TASK_TCH_H", "MF_TASK_NEIGH")]
+    for g in groups:
+        ids = [T[n] for n in g if T[n] in valid]
+        for base in bases:
+            ops = [(OP_SET, sum(1 << t for t in ids) & vmask, 0)] + ticks(base, 120)
+            for t in ids:
+                ops += [(OP_DIS, t, 0)] + ticks(base + 120 + 7 * len(ops), 9)
+            cases.append(dict(kind="group", ops=ops[:900]))
+    # random histories (consecutive frames, occasional jumps, resets)
+    for _ in range(250 if not thorough else 2500):
+        cur = rng.choice([rng.below(HYPER), HYPER - rng.range(1, 120), rng.range(0, 200)])
+        ops = []
+        for _ in range(rng.range(40, 220)):
+            x = rng.below(100)
+            if x < 72:
+                ops.append((OP_TICK, cur, 0))
+                cur = (cur + 1) % HYPER
+            elif x < 84:
+                ops.append((OP_EN, rng.choice(valid), 0))
+            elif x < 92:
+                ops.append((OP_DIS, rng.choice(valid) if rng.chance(3, 4) else rng.below(31), 0))
+            elif x < 95:
+                m = 0
+                for _ in range(rng.range(0, 3)):
+                    m |= 1 << rng.choice(valid)
+                ops.append((OP_SET, m, 0))
+            elif x < 97:
+                ops.append((OP_RESET, 0, 0))
+            elif x < 99:
+                cur = rng.below(HYPER)
+            else:
+                ops.append((OP_SILENT, cur, rng.range(0, 400)))
+                cur = (cur + ops[-1][2]) % HYPER
+        cases.append(dict(kind="random", ops=ops))
+    # C integers: arbitrary states and frame numbers (safe_fn around the current frame, at the sentinel, beyond the hyperframe)
+    for _ in range(300 if not thorough else 3000):
+        cur = rng.choice([rng.below(HYPER), HYPER - 1, 0, HYPER, U32 - 1, rng.below(U32), HYPER // 2 + rng.range(-3, 3)])
+        safe = rng.choice([(cur + rng.range(-6, 6)) % U32, (cur + HYPER // 2 + rng.range(-2, 2)) % U32, HYPER - 1, HYPER, U32 - 1, rng.below(U32), rng.below(HYPER)])
+        ops = [(OP_POKE_T, rng.u64() & vmask & (rng.u64() | rng.u64()), rng.u64() & vmask & (rng.u64() | rng.u64())), (OP_POKE_S, safe, 0)]
+        for k in range(rng.range(1, 4)):
+            ops.append((OP_TICK, (cur + k) % U32, 0))
+        cases.append(dict(kind="poked", ops=ops))
+    # regression witnesses of the two repaired stale-safe_fn defects (pinned d574cef / ec960db)
+    cases.append(dict(kind="wrap-witness", long=True,
+                      ops=[(OP_EN, BCCH, 0), (OP_SILENT, HYPER - 60, 60 + HYPER // 2 + 100), (OP_EN, CCCH, 0)] + ticks((HYPER // 2 + 100) % HYPER, 130)))
+    cases.append(dict(kind="idle-witness", long=True,
+                      ops=[(OP_EN, BCCH, 0), (OP_TICK, HYPER // 2 + 1020, 0), (OP_DIS, BCCH, 0), (OP_SILENT, HYPER // 2 + 1021, HYPER // 2 + 1000),
+                           (OP_EN, CCCH, 0)] + ticks((HYPER // 2 + 1021 + HYPER // 2 + 1000) % HYPER, 130)))
+    for raw in ("1 1 0", "1 1 31 0", "1 1 1 1", "1 9 0 0", "2 5 0 0", "1 3 %d 0" % (1 << 31), "1 6 %d 5" % HYPER, "1 5 4294967296 0", "-1", "1 2 31 0"):
+        cases.append(dict(kind="malformed", raw=raw))
+    return cases
+
+
+def run_histories(ctx, bins, fw, tx, thorough):
+    rng = ctx.rng.fork("histories")
+    tname = {v: k for k, v in fw["tasks"].items()}
+    spec = FwSpec(fw, tx)
+    cases = hist_cases(fw, rng, thorough)
+    lines = [hist_line(c) for c in cases]
+    res, stops = real_seq(bins["c11_fw_run"], "hist", lines)
+    for (k, rc, err) in stops:
+        ctx.oracle_fail("mframe scheduler harness stops (rc %s)" % rc, dict(show_hist(cases[k]), stderr=err[-600:]), key="c11-fw-harness-stop")
+    # the two 1.36-million-tick witnesses go through the extracted model in the thorough tier only (the oracle judges them always)
+    idx = [k for k in range(len(cases)) if res[k] is not None and (thorough or not cases[k].get("long"))]
+    ctx.correspond("mframe_schedule histories", "Mframe", idx, lambda k: "w_c11_fw_hist " + lines[k], lambda k: res[k], show=lambda k: show_hist(cases[k]))
+    nj = 0
+    for k, c in enumerate(cases):
+        if res[k] is None:
+            continue
+        if "raw" in c:
+            if res[k] != [-999]:
+                ctx.oracle_fail("scheduler harness accepts a malformed history", show_hist(c), key="c11-harness-malformed")
+            continue
+        obs = parse_hist(c, res[k])
+        if obs is None:
+            ctx.oracle_fail("scheduler harness output not understood", dict(show_hist(c), output=res[k][:30]), key="c11-fw-harness-output")
+            continue
+        nj += oracle_hist(ctx, fw, spec, c, obs, tname)
+        ctx.nontrivial(("hist-kind", c["kind"]))
+    ctx.evaluations += nj
+    ctx.count("oracle:scheduler ticks judged", nj)
+    ctx.count("cases:scheduler ops", sum(len(c.get("ops", ())) for c in cases))
+    k = next(i for i, c in enumerate(cases) if c["kind"] == "enable-at-phase" and len(c["ops"]) > 120)
+    ctx.sample(dict(op="mframe scheduler history", case=show_hist(cases[k], 8), observed=res[k][:28] if res[k] else None), limit=12)
+
+
 # ------------------------------------------------------------------ run
 
 def fn_points(rng, n):
@@ -1114,6 +1418,9 @@ def run(ctx):
                 ctx.oracle_fail("frames of the layout use channels that get no channel state when the timeslot is configured: " + ", ".join(names.get(c, str(c)) for c in missing),
                                 dict(config=cfg, tn=tn, layout=li, name=L.get("name")), key="c11-no-channel-state:layout%d" % li, expected=sorted(used), observed=sorted(have))
 
+    # ---- (6) the firmware scheduler state: histories of enable / disable / set / reset requests interleaved with ticks
+    run_histories(ctx, bins, fw, tx, thorough)
+
     # ---- (5) the consumers of the lookup in sched_trx.c: handle_rx_burst + subst_frame_loss, pull_burst, rx_probe on recorded handler calls
     run_consumers(ctx, bins, tx, thorough)
 
@@ -1153,5 +1460,10 @@ def run(ctx):
                          "frame for k = 1..n+1 (k-1 losses; all k on one timeslot per combination, boundary k on the others), gaps of exactly period, period+1, 2 periods, "
                          "0, half a hyperframe, out-of-order and back-a-period bursts, poked statistics (num_proc near 2^64, last_proc and fn up to 2^32-1), inactive channels, "
                          "combinations without layout, malformed lines; pull_burst / probe over 2 periods per timeslot and every frame of the first and last 51x26x8 cycle per combination. "
+                         "firmware scheduler state: the real mframe_enable/disable/set/reset/schedule in histories - a request at each of the 51 phases while another task runs "
+                         "(safe and unsafe ticks, mid-hyperframe and across 2715647->0), a disable at every third phase, task groups switched on by mframe_set and off one by one, "
+                         "random histories (consecutive frames, jumps, resets, silent runs), poked states (safe_fn around fn, at the sentinel, beyond the hyperframe; fn up to 2^32-1), "
+                         "two 1.36-million-tick regression witnesses (stale safe_fn after the wrap / after a long idle); oracle on every tick: tasks_tgt only changed by requests, "
+                         "disabled => nothing started, requested => active at the 4th quiet tick at the latest and kept, active => starts exactly the layout's frames. "
                          "distinct_nontrivial = distinct (task, set of kinds/flags fired), (layout, frame row), (lookup result), (layout, channel, rc, substituted?, "
                          "crosses period / hyperframe), (layout, row, handler called / probe result) classes" % len(tasks))
